@@ -16,8 +16,8 @@ RULE = ("two-stage runs: stage 1 builds the generated system fault-free, stage 2
 ASSUMPTIONS = wa.ASSUMPTIONS
 REAL_VS_STUB = wa.REAL_VS_STUB
 PROBES = wa.PROBES + ["atoms_supplied", "centres_supplied", "supplied_and_generated_in_one_system",
-                      "ignored_molecule_present", "ignored_molecule_not_last", "earlier_call_same_input_path", "pdb_input", "synthetic_centres", "ligand_placed_with_host", "resid_restart_inside_molecule", "split_with_supplied_atoms", "start_on_supplied_residue", "pdb_input_without_box_record", "relative_input_path_with_decoy_next_to_topology", "ligand_on_cyclic_host"]
-PROFILE = {"p_rel_inputs": 0.12, "p_synth_centres": 0.25, "sol_p": 0.25, "p_pdb": 0.2, "p_pre_call": 0.3, "n_moltypes": (1, 3), "n_entries": (2, 4), "max_molecules": 8, "max_count": 3, "maxres": 7,
+                      "ignored_molecule_present", "ignored_molecule_not_last", "earlier_call_same_input_path", "pdb_input", "synthetic_centres", "ligand_placed_with_host", "resid_restart_inside_molecule", "split_with_supplied_atoms", "start_on_supplied_residue", "pdb_input_without_box_record", "relative_input_path_with_decoy_next_to_topology", "ligand_on_cyclic_host", "atom_number_column_restarts"]
+PROFILE = {"p_atomno_restart": 0.15, "p_rel_inputs": 0.12, "p_synth_centres": 0.25, "sol_p": 0.25, "p_pdb": 0.2, "p_pre_call": 0.3, "n_moltypes": (1, 3), "n_entries": (2, 4), "max_molecules": 8, "max_count": 3, "maxres": 7,
            "box_modes": ["cubic", "cubic", "noncubic", "density"], "faults": ["step", "start", "overlap"],
            "maxiter": [0, 1, 2, 800], "dilute_hint": True}
 
@@ -81,6 +81,8 @@ def _nt(j, r):
         r["probes"]["split_with_supplied_atoms"] = 1
     if j.get("ligand_on_cyclic_host") and j["opts"].get("ligands"):
         r["probes"]["ligand_on_cyclic_host"] = 1
+    if j.get("atom_numbers_restart"):
+        r["probes"]["atom_number_column_restarts"] = 1
     if j.get("start_on_supplied"):
         r["probes"]["start_on_supplied_residue"] = 1
     if j.get("pdb_no_box"):
